@@ -70,7 +70,146 @@ func c04Generate(rng *rand.Rand) c04Prog {
 	}
 	i := &gen.Var{Name: "i", T: I32}
 	out := c04Prog{mustAccept: false}
-	switch sc := rng.IntN(10); sc {
+	sc := rng.IntN(20)
+	if sc >= 10 {
+		// compositional index flow: assignments, uses, branches, match arms, loops, blocks,
+		// closures, &' calls and catch handlers nested at random; the opaque selector `sel`
+		// decides at run time which path is taken
+		out.scenario = "random-flow"
+		rt := &gen.Type{K: gen.KRef, Elem: I32, Mut: true}
+		setidx := &gen.Func{Name: "setidx", Params: []gen.Param{{Name: "r", T: rt}, {Name: "v", T: I32}}, Ret: gen.TVoid,
+			Body: []gen.Stmt{&gen.Assign{LHS: &gen.Var{Name: "r", T: rt}, Op: "=", RHS: &gen.Var{Name: "v", T: I32}}}}
+		opq := &gen.Func{Name: "opq", Params: []gen.Param{{Name: "v", T: I32}}, Ret: I32, Body: []gen.Stmt{&gen.Return{X: &gen.Var{Name: "v", T: I32}}}}
+		mayFail := &gen.Func{Name: "mayFail", Params: []gen.Param{{Name: "v", T: I32}}, Ret: I32, ErrStr: true, Body: []gen.Stmt{
+			&gen.If{Cond: &gen.Bin{Op: "==", L: &gen.Var{Name: "v", T: I32}, R: lit(I32, 0), T: gen.TBool}, Then: []gen.Stmt{&gen.ReturnErr{Msg: "zero"}}},
+			&gen.Return{X: &gen.Var{Name: "v", T: I32}}}}
+		prog.Funcs = append(prog.Funcs, setidx, opq)
+		usesCatch := false
+		main = append(main, &gen.Let{Name: "i", T: I32, Init: lit(I32, inRange())})
+		main = append(main, &gen.Let{Name: "sel", T: I32, Init: &gen.Call{Fn: opq, Args: []gen.Expr{lit(I32, int64(rng.IntN(3)))}}, Annot: true})
+		sel := &gen.Var{Name: "sel", T: I32}
+		cnt := 0
+		// The generator tracks whether a sound flow analysis can know the value of i (known) and
+		// places uses of a[i] only there, so the program should be accepted; where the compiler
+		// is more conservative it may still reject with T0028 (allowed). noAssign: inside a loop
+		// body that must leave i alone.
+		var flow func(depth int, known, noAssign bool) (ss []gen.Stmt, knownAfter, mod bool)
+		flow = func(depth int, known, noAssign bool) ([]gen.Stmt, bool, bool) {
+			var ss []gen.Stmt
+			mod := false
+			assign := func() {
+				ss = append(ss, &gen.Assign{LHS: i, Op: "=", RHS: lit(I32, inRange())})
+				known, mod = true, true
+			}
+			for k, m := 0, 2+rng.IntN(4); k < m; k++ {
+				c := rng.IntN(13)
+				if depth <= 0 && c >= 6 {
+					c = rng.IntN(6)
+				}
+				switch c {
+				case 0, 1, 2:
+					if !known {
+						if noAssign {
+							continue
+						}
+						assign()
+					}
+					if rng.IntN(3) == 0 {
+						ss = append(ss, writeAt(i, int64(40+rng.IntN(50))))
+					} else {
+						ss = append(ss, readAt(i)...)
+					}
+				case 3, 4:
+					if !noAssign {
+						assign()
+					}
+				case 5:
+					if noAssign {
+						continue
+					}
+					if rng.IntN(2) == 0 {
+						ss = append(ss, &gen.IncDec{X: i, Inc: rng.IntN(2) == 0})
+					} else {
+						ss = append(ss, &gen.Assign{LHS: i, Op: []string{"+=", "-="}[rng.IntN(2)], RHS: lit(I32, int64(1+rng.IntN(2)))})
+					}
+					known, mod = false, true
+				case 6, 7:
+					st := &gen.If{Cond: &gen.Bin{Op: []string{"==", "!=", "<"}[rng.IntN(3)], L: sel, R: lit(I32, int64(rng.IntN(3))), T: gen.TBool}}
+					var m1, m2 bool
+					st.Then, _, m1 = flow(depth-1, known, noAssign)
+					if rng.IntN(4) != 0 {
+						st.Else, _, m2 = flow(depth-1, known, noAssign)
+					}
+					if m1 || m2 {
+						known, mod = false, true
+					}
+					ss = append(ss, st)
+				case 8:
+					m := &gen.Match{Subj: sel, HasDef: true}
+					anyMod := false
+					for a, na := 0, 1+rng.IntN(2); a < na; a++ {
+						body, _, bm := flow(depth-1, known, noAssign)
+						m.Arms = append(m.Arms, gen.MatchArm{Pat: lit(I32, int64(a)), Body: body})
+						anyMod = anyMod || bm
+					}
+					var dm bool
+					m.Default, _, dm = flow(depth-1, known, noAssign)
+					if anyMod || dm {
+						known, mod = false, true
+					}
+					ss = append(ss, m)
+				case 9, 10:
+					// a loop either leaves i alone (i keeps its knowledge) or modifies it (i is
+					// unknown on entry of every iteration and afterwards)
+					bodyMods := !noAssign && rng.IntN(2) == 0
+					body, _, bm := flow(depth-1, known && !bodyMods, !bodyMods)
+					if bodyMods && !bm {
+						body = append(body, &gen.Assign{LHS: i, Op: "=", RHS: lit(I32, inRange())})
+						bm = true
+					}
+					cnt++
+					if c == 9 {
+						w := &gen.Var{Name: fmt.Sprintf("w%d", cnt), T: I32}
+						body = append(body, &gen.Assign{LHS: w, Op: "=", RHS: &gen.Bin{Op: "+", L: w, R: lit(I32, 1), T: I32}})
+						ss = append(ss, &gen.Let{Name: w.Name, T: I32, Init: lit(I32, 0), Annot: true},
+							&gen.While{Cond: &gen.Bin{Op: "<", L: w, R: lit(I32, int64(1+rng.IntN(3))), T: gen.TBool}, Body: body})
+					} else {
+						lo, hi := fmt.Sprintf("lo%d", cnt), fmt.Sprintf("hi%d", cnt)
+						ss = append(ss, &gen.Let{Name: lo, T: I32, Init: lit(I32, 0), Annot: true}, &gen.Let{Name: hi, T: I32, Init: lit(I32, int64(1+rng.IntN(3))), Annot: true},
+							&gen.ForRange{Var: fmt.Sprintf("q%d", cnt), T: I32, Lo: &gen.Var{Name: lo, T: I32}, Hi: &gen.Var{Name: hi, T: I32}, Body: body})
+					}
+					if bm {
+						known, mod = false, true
+					}
+				case 11:
+					body, ka, bm := flow(depth-1, known, noAssign)
+					ss = append(ss, &gen.Block{Body: body})
+					known, mod = ka, mod || bm
+				default:
+					if noAssign {
+						continue
+					}
+					if rng.IntN(2) == 0 {
+						ss = append(ss, &gen.ExprStmt{X: &gen.Call{Fn: setidx, Args: []gen.Expr{&gen.Borrow{Mut: true, X: i}, lit(I32, inRange())}}})
+					} else {
+						usesCatch = true
+						cnt++
+						ss = append(ss, &gen.Let{Name: fmt.Sprintf("cv%d", cnt), T: I32, Annot: true, Init: &gen.Catch{
+							Call: &gen.Call{Fn: mayFail, Args: []gen.Expr{sel}}, ErrVar: "er",
+							Handler: []gen.Stmt{&gen.Assign{LHS: i, Op: "=", RHS: lit(I32, inRange())}}, Fallback: lit(I32, 7)}})
+					}
+					known, mod = false, true
+				}
+			}
+			return ss, known, mod
+		}
+		body, _, _ := flow(2+rng.IntN(2), true, false)
+		main = append(main, body...)
+		if usesCatch {
+			prog.Funcs = append(prog.Funcs, mayFail)
+		}
+	}
+	switch sc {
 	case 0: // literals and consts only: must be accepted
 		out.scenario, out.mustAccept = "literal-and-const", true
 		main = append(main, &gen.Let{Name: "K", T: I32, Init: lit(I32, inRange()), Const: true})
@@ -146,7 +285,7 @@ func c04Generate(rng *rand.Rand) c04Prog {
 		prog.Funcs = append(prog.Funcs, f)
 		main = append(main, &gen.Let{Name: "i", T: I32, Init: &gen.Call{Fn: f}})
 		main = append(main, readAt(i)...)
-	default: // match arms assigning the index
+	case 9: // match arms assigning the index
 		out.scenario = "match-dependent"
 		main = append(main, &gen.Let{Name: "i", T: I32, Init: lit(I32, inRange())})
 		main = append(main, &gen.Let{Name: "sel", T: I32, Init: lit(I32, int64(rng.IntN(3))), Annot: true})
